@@ -71,7 +71,7 @@ class WbDecWorld(World):
                          # the subordinate's own map may be created with an alignment
                          "sal": rng.range(1, 3) if rng.chance(0.15) else 0})
         return {"aw": aw, "dw": dw, "g": g, "feats": sorted(feats), "al": al, "subs": subs,
-                "feats_as": rng.choice(["str", "str", "enum"]),
+                "feats_as": rng.choice(["str", "str", "enum", "frozenset", "list", "tuple"]),
                 "omit": int(rng.chance(0.3)),
                 "own_map": int(rng.chance(0.08)), "twin_decoder": int(rng.chance(0.1)),
                 "mid": rng.below(3) if rng.chance(0.12) else None,
@@ -133,8 +133,7 @@ class WbDecWorld(World):
         aw, dw, g = config["aw"], config["dw"], config["g"]
         gb = log2(dw // g)
         feats = set(config["feats"])
-        spell = (lambda fs: {wishbone.Feature(f) for f in fs}) if config.get("feats_as") == "enum" \
-            else (lambda fs: set(fs))
+        spell = hw.feature_speller(config.get("feats_as"))
         dut = hw.must_accept("C07", f"wishbone.Decoder(addr_width={aw}, data_width={dw}, "
                              f"granularity={g}, features={sorted(feats)}, alignment={config['al']})",
                              wishbone.Decoder,
